@@ -354,6 +354,13 @@ func c13Plugin(c *wk.Ctx, r *wk.Rand, env *gen.Env, idx int64, g int) {
 		c.Violation("C13:differs-from-isolated:callable-plugin:initializer-count", fmt.Sprintf("%d (step, run ID) pairs were used concurrently but the per-run initialiser ran %d times (once per run ID in isolation)", nruns, got),
 			map[string]any{"goroutines": g})
 	}
+	// a signal handler that hands a value to its running step (both arrival orders): step and signal calls of one
+	// run must be able to run side by side
+	for k := 0; k < 4; k++ {
+		if !c11Rendezvous(c, "C13", b, ctx, fmt.Sprintf("rdv-%d-%d", idx, k), k%2 == 0, nil) {
+			return
+		}
+	}
 	// first use of one run ID by all goroutines at once, repeatedly
 	stepID := b.stepIDs()[0]
 	var firstOps []func(run string)
